@@ -10,6 +10,8 @@
     [OQ M F Q]: the same for a routine that may instead raise a documented panic after releasing what it owned.
     All statements hold for every word size w > 0 and every MAX_CAPACITY M >= 8. *)
 From Dashu Require Import Base.Prelude Base.Words Int.StorageModel Int.StorageProofs Int.StorageArith Int.StorageHistory.
+From Dashu Require Import Int.StorageOps2 Int.StorageOps2Proofs Int.ScratchModel Int.ScratchProofs Int.StorageGenProof.
+From DashuGen Require Import StorageGen.
 Open Scope Z_scope.
 
 Theorem C17_default_capacity_compact : forall M, 8 <= M -> forall n, 0 <= n <= M ->
@@ -204,3 +206,252 @@ Theorem C17_histories_storage_ops : forall w M, 0 < w -> 8 <= M ->
        (fun pool m => StateInv M pool m /\ safe (drop_all pool) m (fun _ m' => forall p, blk m' p = None)).
 Proof. exact history_safe. Qed.
 Print Assumptions C17_histories_storage_ops.
+
+(** ================================================================== round 3 ==================================================================
+    (a) the extended machine: pow, sqr, gcd, div_rem, next_power_of_two, clear_high_bits, split_bits
+    [gk] is the Lehmer kernel gcd::gcd_in_place (length of the result, buffer it is stored in), constrained only by
+    its contract; [OQ2] is OQ for a routine returning two values. *)
+
+(** Buffer::push_resizing on a buffer with spare capacity never touches the allocator - the "actually never resize"
+    comments of pow_word_base / pow_dword_base *)
+Theorem C17_push_resizing_fits : forall (M : Z) (b : buffer) (x : Z) (m : mem) (Q : buffer -> mem -> Prop),
+  len (bws b) < bcap b -> Q b m -> Q (setws b (bws b ++ [x])) m -> safe (push_resizing M b x) m Q.
+Proof. exact push_resizing_fits. Qed.
+Print Assumptions C17_push_resizing_fits.
+
+(** the loop of pow_word_base from bit p of the exponent e down to bit 0: entered with res in at most
+    2 * (e >> (p+1)) words, a capacity of at least e + 1 words (Buffer::allocate(exp + 1)) and a scratch copy area
+    of at least e / 2 words, it runs to the end INSIDE THE SAME BLOCK and the same heap: every push_resizing
+    fits, every res.push_zeros(res.len()) has room, every scratch copy of res fits; at most e words at the end *)
+Theorem C17_pow_word_loop_in_place : forall (w M sc : Z) (p : nat) (e wbase : Z) (res : buffer) (m : mem),
+  0 <= e -> 2 <= len (bws res) <= 2 * (e / 2 ^ (Z.of_nat p + 1)) -> e + 1 <= bcap res -> e / 2 <= sc ->
+  safe (pow_word_loop w M sc p e wbase res) m (same_block res m 2 e).
+Proof. exact wp_pow_word_loop. Qed.
+Print Assumptions C17_pow_word_loop_in_place.
+
+(** pow_dword_base: at most 4 * (e >> (p+1)) words on entry, capacity at least 2 * e (Buffer::allocate(2 * exp)) *)
+Theorem C17_pow_dword_loop_in_place : forall (w M sc : Z) (p : nat) (e base : Z) (res : buffer) (m : mem),
+  0 <= e -> 2 <= len (bws res) <= 4 * (e / 2 ^ (Z.of_nat p + 1)) -> 2 * e <= bcap res -> e <= sc ->
+  safe (pow_dword_loop w M sc p e base res) m (same_block res m 2 (2 * e)).
+Proof. exact wp_pow_dword_loop. Qed.
+Print Assumptions C17_pow_dword_loop_in_place.
+
+(** IBig::pow / UBig::pow of a borrowed operand: exp = 0, 1, 2 shortcuts, power-of-two bases through set_bit,
+    pow_word_base, pow_dword_base, pow_large_base, and the path that first removes the factor 2^shift
+    (shr of the borrowed operand, pow, shl of the owned result, drop of the temporary) *)
+Theorem C17_pow : forall w M : Z, 0 < w -> 8 <= M ->
+  forall (s : sign) (a : targ) (e : Z) (F : list (Z * Z)) (m : mem) (Q : repr -> mem -> Prop),
+  Own F m -> TargInv M a -> tblks a = [] -> 0 <= e -> RQ M F Q -> safe (pow_top w M s a e) m Q.
+Proof. exact wp_pow_top. Qed.
+Print Assumptions C17_pow.
+
+Theorem C17_sqr : forall w M : Z, 8 <= M ->
+  forall (a : targ) (F : list (Z * Z)) (m : mem) (Q : repr -> mem -> Prop),
+  Own F m -> TargInv M a -> RQ M F Q -> safe (sqr_ref w M a) m Q.
+Proof. exact wp_sqr_ref. Qed.
+Print Assumptions C17_sqr.
+
+(** gcd in every call form: both operands copied into fresh buffers, the one holding the result truncated to the
+    kernel's length and normalized, the other one and the by-value operands freed exactly once; gcd(0, 0) panics
+    before anything is allocated *)
+Theorem C17_gcd : forall w M : Z, 8 <= M ->
+  forall gk : list Z -> list Z -> Z * bool,
+  (forall l r : list Z, 0 <= fst (gk l r) <= len (if snd (gk l r) then r else l)) ->
+  forall (a b : targ) (F : list (Z * Z)) (m : mem) (Q : outcome -> mem -> Prop),
+  Own (tblks a ++ tblks b ++ F) m -> OQ M F Q -> safe (gcd_mag w M gk a b) m Q.
+Proof. exact wp_gcd_mag. Qed.
+Print Assumptions C17_gcd.
+
+(** div_rem of two borrowed operands: quotient in the dividend's copy (push_resizing of the top word, erase_front),
+    remainder in the divisor's copy (lhs[..n] in range); DivideBy0 after the copy was released *)
+Theorem C17_div_rem : forall w M : Z, 8 <= M ->
+  forall (a b : targ) (F : list (Z * Z)) (m : mem) (Q : outcome2 -> mem -> Prop),
+  Own F m -> TargInv M a -> TargInv M b -> OQ2 M F Q -> safe (div_rem_ref w M a b) m Q.
+Proof. exact wp_div_rem_ref. Qed.
+Print Assumptions C17_div_rem.
+
+Theorem C17_next_power_of_two : forall w M : Z, 8 <= M ->
+  forall (a : targ) (F : list (Z * Z)) (m : mem) (Q : repr -> mem -> Prop),
+  Own (tblks a ++ F) m -> TargInv M a -> is_ref a = false -> RQ M F Q -> safe (next_power_of_two w M a) m Q.
+Proof. exact wp_next_power_of_two. Qed.
+Print Assumptions C17_next_power_of_two.
+
+(** clear_high_bits_large: truncate to ceil(n / w) words (<= len), last_mut().unwrap() on a non-empty buffer *)
+Theorem C17_clear_high_bits : forall w M : Z, 0 < w -> 8 <= M ->
+  forall (a : targ) (n : Z) (F : list (Z * Z)) (m : mem) (Q : repr -> mem -> Prop),
+  Own (tblks a ++ F) m -> TargInv M a -> is_ref a = false -> 0 <= n -> RQ M F Q -> safe (clear_high_bits w M a n) m Q.
+Proof. exact wp_clear_high_bits. Qed.
+Print Assumptions C17_clear_high_bits.
+
+Theorem C17_split_bits : forall w M : Z, 0 < w -> 8 <= M ->
+  forall (a : targ) (n : Z) (F : list (Z * Z)) (m : mem) (Q : repr * repr -> mem -> Prop),
+  Own (tblks a ++ F) m -> TargInv M a -> is_ref a = false -> 0 <= n ->
+  (forall (lo hi : repr) (m' : mem), Own (rblks lo ++ rblks hi ++ F) m' -> ReprInv M lo -> ReprInv M hi -> Q (lo, hi) m') ->
+  safe (split_bits w M a n) m Q.
+Proof. exact wp_split_bits. Qed.
+Print Assumptions C17_split_bits.
+
+(** every step of the EXTENDED machine (all steps of C17_step_storage_ops plus pow, sqr, gcd in every call form,
+    div_rem, next_power_of_two, clear_high_bits, split_bits) preserves the invariant of the pool and the ledger *)
+Theorem C17_step2_storage_ops : forall w M : Z, 0 < w -> 8 <= M ->
+  forall gk : list Z -> list Z -> Z * bool,
+  (forall l r : list Z, 0 <= fst (gk l r) <= len (if snd (gk l r) then r else l)) ->
+  forall (o : op2) (pool : list repr) (m : mem),
+  op2_ok w M (length pool) o -> StateInv M pool m ->
+  safe (step2 w M gk o pool) m (fun pr m' => StateInv M (fst pr) m' /\ length (fst pr) = length pool).
+Proof. exact step2_safe. Qed.
+Print Assumptions C17_step2_storage_ops.
+
+(** all finite histories of the extended machine; the final drop leaves the ghost heap empty *)
+Theorem C17_histories2_storage_ops : forall w M : Z, 0 < w -> 8 <= M ->
+  forall gk : list Z -> list Z -> Z * bool,
+  (forall l r : list Z, 0 <= fst (gk l r) <= len (if snd (gk l r) then r else l)) ->
+  forall (n : nat) (ops : list op2), Forall (op2_ok w M n) ops ->
+  safe (run2 w M gk ops (repeat zero n)) mem0
+       (fun pool m => StateInv M pool m /\ safe (drop_all pool) m (fun _ m' => forall p, blk m' p = None)).
+Proof. exact history2_safe. Qed.
+Print Assumptions C17_histories2_storage_ops.
+
+(** ---- (b) the scratch bump allocator (memory.rs) as an offset machine.  [good ws U m a]: the chunk m starts at an
+    address aligned to the word size ws, lies inside [0, usize::MAX = U] and has room for a words.
+    [dsame fuel n]: the words the recursion of mul::add_signed_mul_same_len(n) asks for, by its allocation plan.
+    Requirement formulas, thresholds and allocation sizes are the REGENERATED ones (StorageGen). *)
+
+(** Memory::allocate_slice_*::<Word>(n) in a good chunk: no padding, no overflow, the rest is good again *)
+Theorem C17_scratch_allocate_slice : forall ws U : Z, 0 < ws ->
+  forall (n : Z) (m : memory) (a : Z), good ws U m a -> 0 <= n <= a ->
+  exists (s : Z) (m' : memory), alloc_slice ws U n m = Ok (s, m') /\ good ws U m' (a - n).
+Proof. exact alloc_ok. Qed.
+Print Assumptions C17_scratch_allocate_slice.
+
+(** the whole recursion (schoolbook / Karatsuba / Toom-3 at every depth) runs without
+    "internal error: not enough memory allocated" in any good chunk with room for dsame; fuel > n suffices *)
+Theorem C17_scratch_mul_recursion : forall ws U : Z, 0 < ws ->
+  forall (fuel : nat) (n : Z) (m : memory) (a : Z),
+  (Z.to_nat n < fuel)%nat -> 0 <= n -> good ws U m a -> dsame fuel n <= a -> mul_same ws U fuel n m = Ok tt.
+Proof. exact mul_same_ok. Qed.
+Print Assumptions C17_scratch_mul_recursion.
+
+(** karatsuba::memory_requirement_up_to: 2n + 2 ceil_log2 n *)
+Theorem C17_scratch_karatsuba_requirement : forall (fuel : nat) (n : Z),
+  0 <= n <= gen_mul_threshold_karatsuba -> dsame fuel n <= gen_kara_requirement n.
+Proof. exact kara_bound. Qed.
+Print Assumptions C17_scratch_karatsuba_requirement.
+
+(** toom_3::memory_requirement_up_to: 4n + 13 ceil_log2 n, for EVERY length (the "20 log_3 n < 13 log_2 n" of the
+    source comment is the integer fact 2^20 <= 3^13 applied per Toom-3 level) *)
+Theorem C17_scratch_toom3_requirement : forall (fuel : nat) (n : Z), 0 <= n -> dsame fuel n <= gen_toom_requirement n.
+Proof. exact toom_bound. Qed.
+Print Assumptions C17_scratch_toom3_requirement.
+
+(** mul::memory_requirement_up_to(_, s) covers the same-length product of every r <= s words *)
+Theorem C17_scratch_requirement_covers : forall (fuel : nat) (r s : Z), 0 <= r <= s -> dsame fuel r <= gen_mul_requirement s.
+Proof. exact requirement_covers. Qed.
+Print Assumptions C17_scratch_requirement_covers.
+
+(** mul_large: the block of mul::memory_requirement_exact(_, min(len lhs, len rhs)) words serves the whole product
+    (chunks of the shorter length + the recursively multiplied remainder), at any aligned address where it fits *)
+Theorem C17_scratch_mul_large : forall ws U : Z, 0 < ws ->
+  forall base la lb : Z, base mod ws = 0 -> 0 <= base -> 1 <= la -> 1 <= lb ->
+  base + gen_mul_requirement (Z.min la lb) * ws <= U -> mul_large_scratch ws U base la lb = Ok tt.
+Proof. exact mul_large_scratch_ok. Qed.
+Print Assumptions C17_scratch_mul_large.
+
+Theorem C17_scratch_square_large : forall ws U : Z, 0 < ws ->
+  forall base len : Z, base mod ws = 0 -> 0 <= base -> 0 <= len ->
+  base + gen_sqr_requirement len * ws <= U -> square_large_scratch ws U base len = Ok tt.
+Proof. exact square_large_scratch_ok. Qed.
+Print Assumptions C17_scratch_square_large.
+
+(** the squarings of pow_word_base (copy = sarg = exp / 2 + 1) and pow_dword_base (copy = sarg = exp): the copy of
+    res (len <= copy by C17_pow_*_loop_in_place) and the squaring of len words fit the block of
+    copy + sqr::memory_requirement_exact(sarg) words *)
+Theorem C17_scratch_pow_square : forall ws U : Z, 0 < ws ->
+  forall base copy sarg len : Z, base mod ws = 0 -> 0 <= base -> 0 <= len <= copy -> copy <= sarg ->
+  base + (copy + gen_sqr_requirement sarg) * ws <= U -> pow_square_scratch ws U base copy sarg len = Ok tt.
+Proof. exact pow_square_scratch_ok. Qed.
+Print Assumptions C17_scratch_pow_square.
+
+(** ---- (c) exact capacity arithmetic over the regenerated formulas of buffer.rs *)
+Theorem C17_gen_capacity_compact : forall M n : Z, 8 <= M -> 0 <= n <= M ->
+  n <= gen_default_capacity M n <= gen_max_compact_capacity M n /\ 2 <= gen_default_capacity M n <= M.
+Proof. exact gen_capacity_compact. Qed.
+Print Assumptions C17_gen_capacity_compact.
+
+Theorem C17_gen_no_shrink_after_allocate : forall M n : Z, 8 <= M -> 0 <= n <= M ->
+  gen_shrink_test M (gen_default_capacity M n) n = false.
+Proof. exact gen_no_shrink_after_allocate. Qed.
+Print Assumptions C17_gen_no_shrink_after_allocate.
+
+(** MAX_CAPACITY words hold at most usize::MAX bits and (words of >= 16 bits) at most isize::MAX bytes *)
+Theorem C17_max_capacity_bits : forall U wb : Z, 0 < wb -> gen_max_capacity U wb * wb <= U.
+Proof. exact max_capacity_bits. Qed.
+Print Assumptions C17_max_capacity_bits.
+Theorem C17_max_capacity_bytes : forall U wb : Z, 16 <= wb -> 0 <= U -> gen_max_capacity U wb * (wb / 8) <= U / 2.
+Proof. exact max_capacity_bytes. Qed.
+Print Assumptions C17_max_capacity_bytes.
+
+(** Buffer::allocate(n): capacity exactly default_capacity(n), one block; fails only by the debug assertion
+    n <= MAX_CAPACITY; the AllocateTooMuch panic of allocate_exact is unreachable through allocate *)
+Theorem C17_allocate_exact_outcome : forall (M n : Z) (m : mem), 8 <= M -> 0 <= n ->
+  match allocate M n m with
+  | Ok (b, m') => n <= M /\ bcap b = gen_default_capacity M n /\ bws b = [] /\ nlive m' = nlive m + 1 /\ nwords m' = nwords m + bcap b
+  | Err e => e = 12 /\ M < n
+  | Panic _ => False
+  | OutOfFuel => False
+  end.
+Proof. exact allocate_exact_outcome. Qed.
+Print Assumptions C17_allocate_exact_outcome.
+
+Theorem C17_ensure_capacity_exact_outcome : forall (M : Z) (b : buffer) (n : Z) (F : list (Z * Z)) (m : mem),
+  8 <= M -> Own (bblk b :: F) m -> len (bws b) <= n <= M ->
+  match ensure_capacity M b n m with
+  | Ok (b', m') => bws b' = bws b /\ bcap b' = (if gen_ensure_capacity_test (bcap b) n then gen_default_capacity M n else bcap b) /\
+                   (gen_ensure_capacity_test (bcap b) n = false -> b' = b /\ m' = m) /\ nlive m' = nlive m
+  | _ => False
+  end.
+Proof. exact ensure_capacity_exact_outcome. Qed.
+Print Assumptions C17_ensure_capacity_exact_outcome.
+
+(** the regenerated fragments are what the machine uses: the plans of Karatsuba / Toom-3 as read from the source today,
+    and the routines of StorageModel.v rewritten with the regenerated tests / requests (a source edit breaks these) *)
+Theorem C17_tie_scratch_plans : forall n : Z,
+  kara_plan n = (let mid := (n + 1) / 2 in
+     Seq (Alloc (2 * mid) (Call mid)) (Seq (Alloc (2 * (n - mid)) (Call (n - mid))) (Alloc mid (Alloc mid (Call mid))))) /\
+  toom_plan n = (let n3 := (n + 2) / 3 in
+     Alloc (2 * n3 + 2) (Seq (Call n3)
+    (Alloc (n3 + 1) (Alloc (n3 + 1) (Seq (Call (n3 + 1))
+    (Seq (Alloc (2 * n3 + 2) (Call (n - 2 * n3)))
+    (Alloc (2 * n3 + 2) (Seq (Alloc (n3 + 1) (Alloc (n3 + 1) (Call (n3 + 1))))
+                             (Alloc (2 * (n3 + 1)) (Call (n3 + 1))))))))))) /\
+  gen_kara_calls = 3%nat /\ gen_toom_calls = 5%nat.
+Proof. intros n. split; [apply kara_plan_eq | split; [apply toom_plan_eq | exact plan_call_counts]]. Qed.
+Print Assumptions C17_tie_scratch_plans.
+
+Theorem C17_tie_buffer : forall (M : Z) (b : buffer) (n : Z) (m : mem),
+  (forall k, default_capacity M k = gen_default_capacity M k /\ max_compact_capacity M k = gen_max_compact_capacity M k) /\
+  ensure_capacity M b n = (if gen_ensure_capacity_test (bcap b) n then reallocate M b n else ret b) /\
+  shrink_to_fit M b m = (max_compact_chk M (len (bws b)) ;;;
+                         if gen_shrink_test M (bcap b) (len (bws b)) then reallocate M b (len (bws b)) else ret b) m /\
+  allocate_raw M n = (guard 1 (gen_allocate_raw_guard M n) ;;; raw_alloc n).
+Proof.
+  intros M b n m. split; [intros k; split; [apply tie_default_capacity | apply tie_max_compact_capacity]|].
+  split; [apply tie_ensure_capacity|]. split; [apply tie_shrink_to_fit | apply tie_allocate_raw].
+Qed.
+Print Assumptions C17_tie_buffer.
+
+Theorem C17_tie_requests : forall (w M : Z) (lhs rhs : list Z) (b : buffer) (n : Z),
+  mul_large w M lhs rhs =
+    (let k := gen_mul_large_request (len lhs) (len rhs) in
+     guard 13 ((2 <=? len lhs) && (2 <=? len rhs)) ;;;
+     b <- allocate M k ;; b1 <- push_repeat b 0 k ;; from_buffer w M (setws b1 (tow w k (val w lhs * val w rhs)))) /\
+  shl_large w M b n =
+    (let sw := n / w in
+     if gen_shl_large_realloc_test (bcap b) (len (bws b)) sw then r <- shl_large_ref w M (bws b) n ;; drop_buffer b ;;; ret r
+     else b1 <- push b 0 ;; b2 <- push_zeros_front b1 sw ;; from_buffer w M (setws b2 (tow w (len (bws b2)) (val w (bws b) * 2 ^ n)))) /\
+  shl_large_ref w M lhs n =
+    (let sw := n / w in
+     b <- allocate M (gen_shl_large_ref_request sw (len lhs)) ;; b1 <- push_repeat b 0 sw ;; b2 <- push_slice b1 lhs ;;
+     b3 <- push b2 0 ;; from_buffer w M (setws b3 (tow w (len (bws b3)) (val w lhs * 2 ^ n)))).
+Proof. intros. split; [apply tie_mul_large | split; [apply tie_shl_large | apply tie_shl_large_ref]]. Qed.
+Print Assumptions C17_tie_requests.
